@@ -283,6 +283,31 @@ pub fn generate(tier: Tier, rng: &mut Rng) -> Vec<Case> {
                 push(&mut out, &spec, format!("[{a} + {b2}, x, y]"), Some(format!("(ok (list (list{}) (list{}) (list{})))", ints(&cat2), ints(&la), ints(&lb))), vec![if cat2.is_empty() { "empty" } else { "list" }, "concat-forms"]);
             }
         }
+        // the string tests against concatenation (C14b: startsWith / endsWith / contains / `in` are
+        // characterised by `+`): each operand of x + n + y is found where it was put, and for short
+        // strings over a three-letter alphabet (so that hits and misses are both frequent) the four
+        // tests answer as a character-wise recomputation does
+        {
+            let nn = gen_string(rng);
+            let mut spec = CtxSpec::default_ctx();
+            spec.vars.push(("x".into(), Value::String(Arc::new(a.clone()))));
+            spec.vars.push(("n".into(), Value::String(Arc::new(nn.clone()))));
+            spec.vars.push(("y".into(), Value::String(Arc::new(bb.clone()))));
+            push(&mut out, &spec, "[(x + n + y).contains(n), n in (x + n + y), (x + n + y).startsWith(x), (x + n + y).endsWith(y), (x + n).endsWith(n), (n + y).startsWith(n), (x + n + y).contains(x + n), (x + n + y).contains(n + y), x.contains(''), x.startsWith(''), x.endsWith(''), x.contains(x), x + n + y == x + (n + y)]".into(), Some(format!("(ok (list{}))", " (bool 1)".repeat(13))), vec!["string", "string-tests", "concat"]);
+            let small = |rng: &mut Rng, max: u64| -> String { (0..rng.below(max + 1)).map(|_| *rng.pick(&['a', 'b', 'é'])).collect() };
+            let (t, q) = (small(rng, 6), small(rng, 3));
+            let (tc, qc): (Vec<char>, Vec<char>) = (t.chars().collect(), q.chars().collect());
+            let starts = tc.len() >= qc.len() && tc[..qc.len()] == qc[..];
+            let ends = tc.len() >= qc.len() && tc[tc.len() - qc.len()..] == qc[..];
+            let inside = (0..=tc.len().saturating_sub(qc.len())).any(|i| tc.len() >= qc.len() && tc[i..i + qc.len()] == qc[..]);
+            let mut spec = CtxSpec::default_ctx();
+            spec.vars.push(("t".into(), Value::String(Arc::new(t.clone()))));
+            spec.vars.push(("q".into(), Value::String(Arc::new(q.clone()))));
+            let want = format!("(ok (list {} {} {} {}))", b(inside), b(inside), b(starts), b(ends));
+            let tag = if inside { "hit" } else { "miss" };
+            push(&mut out, &spec, "[t.contains(q), q in t, t.startsWith(q), t.endsWith(q)]".into(), Some(want.clone()), vec!["string", "string-tests", tag]);
+            push(&mut out, &default, format!("[{0}.contains({1}), {1} in {0}, {0}.startsWith({1}), {0}.endsWith({1})]", str_literal(&t), str_literal(&q)), Some(want), vec!["string", "string-tests", "literal", tag]);
+        }
         let probe = rng.range(-3, 3);
         let psrc = if probe < 0 { format!("({probe})") } else { probe.to_string() };
         push(&mut out, &spec, format!("[{psrc} in x, x.exists(e, e == {psrc}), x.contains({psrc})]"), Some(format!("(ok (list {0} {0} {0}))", b(la.contains(&probe)))), vec![tag, "membership"]);
